@@ -59,7 +59,7 @@ class Script(System):
                     cells = env.get_moore_neighbours((int(p.x), int(p.y), 0), 1, False, tuple)
                 else:
                     # the generic entry point, its mode given as text that was put together at run time (a model parameter)
-                    mode = "".join(list(("moore", "neumann")[(m.systems.timestep // 2) % 2]))
+                    mode = "".join(list(("neumann", "moore")[(m.systems.timestep // 2) % 2]))
                     cells = env.get_neighbours((int(p.x), int(p.y), 0), 1, False, tuple, mode)
                 m.random.shuffle(cells)
                 if cells:
@@ -68,7 +68,7 @@ class Script(System):
         if "move" in self.mix and m.kind == "line":
             a = env.get_random_agent()
             if a is not None:
-                cells = env.get_neumann_neighbours(int(a[PositionComponent].x), 2, False, tuple)
+                cells = env.get_neumann_neighbours(int(a[PositionComponent].x), 1 + m.systems.timestep % 2, False, tuple)
                 m.random.shuffle(cells)
                 if cells:
                     env.move_to(a, cells[0][0])
